@@ -302,6 +302,30 @@ theorem reject_bad_type_is_fatal {W R} (prot : W → UInt8 → Bytes → Option 
   | none => simp [Err.alert]
   | some v => obtain ⟨w', a⟩ := v; simp [Err.alert]
 
+/-- a ChangeCipherSpec record on an established connection (`_middlebox_compat_mode` cleared at the
+    end of the handshake by both roles, with or without client authentication; TLS ≤ 1.2 never
+    tolerates it) is fatal like any other rejection: `unexpected_message`, nothing delivered,
+    closed, not resumable — it is never skipped silently -/
+theorem ccs_after_handshake_is_fatal {W R} (prot : W → UInt8 → Bytes → Option (W × Rec))
+    (unprot : R → Rec → Except Err (Option (R × UInt8 × Bytes))) (max : Option Nat) (min : Nat)
+    (tryOnce : Bool) (e : Endpoint W R) (r : Rec) (inc : List Rec)
+    (hmore : readMore e min tryOnce = true) (hflag : e.ccsTolerated = false) (rd' : R) (d : Bytes)
+    (hok : unprot e.rd r = .ok (some (rd', 20, d))) :
+    let res := epReadLoop prot unprot max min tryOnce e (r :: inc)
+    res.2.2.2 = .localAlert 10 ∧ res.1.closed = true ∧ res.1.resumable = false ∧ res.1.buf = e.buf ∧
+    res.2.1 = inc ∧ res.2.2.1.length ≤ 1 := by
+  have h1 : ((20 : UInt8) == 23) = false := by decide
+  simp only [epReadLoop, hmore, if_true, hok, h1, Bool.false_eq_true, if_false, hflag, Bool.false_and, epFatal]
+  by_cases hd : (d.isEmpty || !((20 : UInt8) == 20 || (20 : UInt8) == 21 || (20 : UInt8) == 22 || (20 : UInt8) == 24)) = true
+  · simp only [hd, if_true]
+    cases hp : prot e.wr 21 [2, UInt8.ofNat Err.unexpected_message.alert] with
+    | none => simp [Err.alert]
+    | some v => obtain ⟨w', a⟩ := v; simp [Err.alert]
+  · simp only [hd, Bool.false_eq_true, if_false, beq_self_eq_true, if_true]
+    cases hp : prot e.wr 21 [2, UInt8.ofNat Err.unexpected_message.alert] with
+    | none => simp [Err.alert]
+    | some v => obtain ⟨w', a⟩ := v; simp [Err.alert]
+
 /-- once closed, an endpoint processes nothing further: reads hand out what was buffered BEFORE the
     rejection and consume no record, writes raise `TLSClosedConnectionError` and send nothing -/
 theorem closed_is_final {W R} (prot : W → UInt8 → Bytes → Option (W × Rec))
